@@ -535,3 +535,21 @@ LIBM[('opaque:WS', 'close')] = _ws_close
 
 compressed = z3.Function('compressed', z3.StringSort(), z3.StringSort(), z3.StringSort())
 lib.SPECIAL['compressed'] = _sp1(lambda eng, st, kind, data: V(BYTES, compressed(kind.t, data.t)))
+
+
+def sp_unchanged(eng, st, e):
+    """unchanged('Class.field', ...): every object's field has its pre-state value."""
+    conj = []
+    for a in e.args:
+        cls, field = a.value.split('.')
+        fty = eng.reg.field_ty(cls, field)
+        for key, sort in eng.field_keys((eng.reg.root_of(cls), field), fty):
+            new = eng.heap_arr(st, key, sort)
+            old = st.pre.heap.get(key)
+            if old is None:
+                old = eng.heap_arr(st.pre, key, sort)
+            conj.append(new == old)
+    yield st, vbool(z3.And(*conj) if conj else z3.BoolVal(True))
+
+
+lib.SPECIAL['unchanged'] = sp_unchanged
